@@ -17,7 +17,7 @@ Is(e) == l <= Len(T) /\ Ev.ev = e /\ l' = l + 1
 Upd(f, k, v) == [x \in DOMAIN f \cup {k} |-> IF x = k THEN v ELSE f[x]]
 
 ObsFailing(e) ==
-  {c \in {"TwinAtLastPose", "NoRaise", "SameSupport", "SameAabb", "SameCenter", "SameFirstVertex", "SamePose", "SameQueries", "SameAltQueries"} :
+  {c \in {"TwinAtLastPose", "NoRaise", "SameSupport", "SameAabb", "SameCenter", "SameFirstVertex", "SamePose", "SameQueries", "SameAltQueries", "CallerArraysIntact"} :
      ~ CASE c = "TwinAtLastPose"  -> e.c \in DOMAIN last /\ e.twinPose = last[e.c]
          [] c = "NoRaise"         -> e.exc = "none"
          [] c = "SameSupport"     -> e.exc = "none" => e.support <= Slack
@@ -28,7 +28,9 @@ ObsFailing(e) ==
          [] c = "SameQueries"     -> e.exc = "none" => e.gjk <= Slack
          \* the other algorithms (original / Nesterov / Nesterov-primitives distance, libccd and MPR booleans), both
          \* argument orders, in ticks of their own tolerance 1e-3*L
-         [] c = "SameAltQueries"  -> e.exc = "none" => e.alt <= Slack}
+         [] c = "SameAltQueries"  -> e.exc = "none" => e.alt <= Slack
+         \* every array the caller owns (pose arrays, centre buffers) still holds what the caller wrote last
+         [] c = "CallerArraysIntact" -> e.callerIntact}
 
 Reject(id, cl) == cl # {} => PrintT(<<"REJECT", id, cl>>)
 
